@@ -127,9 +127,9 @@ func TestC06(t *testing.T) {
 		old := debug.SetGCPercent(-1)
 		defer debug.SetGCPercent(old)
 	}
-	n := rec.N(20000, 1000000)
+	n := rec.N(20000, 4000000)
 	if rec.Race() {
-		n = rec.N(1500, 30000)
+		n = rec.N(1500, 100000)
 	}
 	done := 0
 	rec.Suite("histories", n, func(c *ev.Case) {
@@ -296,7 +296,7 @@ func TestC06(t *testing.T) {
 
 	// end-to-end: a handler keeps every message and hands it to a checker that
 	// renders it again after further messages have been received.
-	rec.Suite("conn-retain", rec.N(300, 20000), func(c *ev.Case) {
+	rec.Suite("conn-retain", rec.N(300, 60000), func(c *ev.Case) {
 		r := c.R
 		base := c06Tree(c, r.IntN(4) == 0)
 		k := 3 + r.IntN(6)
